@@ -243,3 +243,76 @@ def c07_r5(ctx):
                    detail="stores self.%s: the reader/searcher is reused by later lookups and misses this writer's own deletions" % ", self.".join(stores) if stores else "")
     if n < 3:
         raise AnalysisError("only %d writer reader()/searcher() methods" % n)
+
+
+@rule("C07", "R6", "K9", "a matcher that counts document numbers itself is told which documents are deleted",
+      min_instances=3, also=("C01",),
+      clause="Posting lists come out of SegmentReader.postings() already filtered by the deleted set; a matcher whose id() is its own "
+             "counter (stepped by += 1 in next()/_find_next()) and that has no posting-backed children bounding it enumerates raw "
+             "document numbers instead. Every such class takes a deletion predicate (constructor parameter `missing` / `is_deleted`), "
+             "and every place in whoosh.query that constructs one binds that parameter to <reader>.is_deleted (copies pass the stored "
+             "predicate on). Otherwise deleted, not yet merged documents come back from ColumnQuery / Not / NestedChildren.")
+def c07_r6(ctx):
+    from .. import matchers as M
+    from .common import bound_arg
+    prog = ctx.prog
+    PRED = ("missing", "is_deleted")
+    takes = {}
+    n = 0
+    for K in M.matcher_classes(prog):
+        init = prog.lookup(K, "__init__")
+        if init is not None:
+            ps = [p_ for p_ in init.params if p_ in PRED]
+            if ps:
+                takes[K.qualname] = ps[0]
+        idf = K.methods.get("id")
+        if idf is None:
+            continue
+        rets = [norm.canon(r.value) for r in ast.walk(idf.node) if isinstance(r, ast.Return) and r.value is not None]
+        if len(rets) != 1 or not rets[0].startswith("self.") or "(" in rets[0] or "[" in rets[0]:
+            continue
+        attr = rets[0][5:]
+        steps = [f.name for f in K.methods.values() for st in ast.walk(f.node)
+                 if isinstance(st, ast.AugAssign) and norm.canon(st.target) == "self." + attr and isinstance(st.op, ast.Add)
+                 and isinstance(st.value, ast.Constant) and st.value.value == 1]
+        try:
+            spec = M.spec_for(prog, K)
+        except Exception:
+            spec = None
+        children = (spec[1] or {}).get("children") if isinstance(spec, tuple) and spec and spec[0] is not None else None
+        if not steps or children:
+            continue
+        n += 1
+        ctx.ob(K, K.qualname in takes, "%s counts document numbers itself and takes a deletion predicate" % K.name,
+               detail="id() is self.%s, stepped in %s; the constructor has no `missing`/`is_deleted` parameter" % (attr, sorted(set(steps))),
+               loc=K.loc)
+    for f in prog.functions.values():
+        if not f.module.name.startswith("whoosh.query") and not f.module.name.startswith("whoosh.matching"):
+            continue
+        for c in norm.calls_in(f.node):
+            try:
+                r = calls_of(prog).resolve(f, c)
+            except Exception:
+                continue
+            if r.kind != "exact" or len(r.targets) != 1 or r.targets[0].name != "__init__" or r.targets[0].cls is None:
+                continue
+            K = r.targets[0].cls
+            # the class constructed (not a base-constructor call from a subclass __init__)
+            if isinstance(c.func, ast.Attribute) and c.func.attr == "__init__":
+                continue
+            pname = None
+            for k in prog.mro(K):
+                if not isinstance(k, str) and k.qualname in takes:
+                    pname = takes[k.qualname]
+                    break
+            if pname is None:
+                continue
+            n += 1
+            ctx.saw(f)
+            a = bound_arg(prog, f, c, pname)
+            t = norm.canon(a) if a is not None else None
+            ok = t is not None and (t.endswith(".is_deleted") or t in ("self.missing", "self.is_deleted", "self._missing", "is_deleted", "missing"))
+            ctx.ob(f, ok, "%s(...) is given the reader's deletion predicate" % K.name,
+                   detail="`%s` bound to %s" % (pname, t), loc=ctx.nodeloc(f, c))
+    if n < 3:
+        raise AnalysisError("only %d counting matchers / construction sites" % n)
